@@ -223,6 +223,7 @@ pub fn run_enum(e: &WireEngine, ctx: &Ctx) {
                 FK::CtUnregistered,
                 FK::CtLabelSwap,
                 FK::UnknownField,
+                FK::TypeConfusion,
                 FK::Oversize,
                 FK::ByteFlip,
             ]
